@@ -89,13 +89,13 @@ Proof.
     apply IH. intros; apply Htl; right; assumption.
 Qed.
 
-Theorem referents_sound c t ct : checkk KRef c t ct = true ->
-  forall s, reach c t s ->
+Theorem referents_sound v c t ct : checkk v KRef c t ct = true ->
+  forall s, reach v c t s ->
   forall lasti st tr, In (false, lasti, st, tr) (obs c s) ->
-  ref_sound tr (referents c t lasti st).
+  ref_sound tr (referents v c t lasti st).
 Proof.
   intros Hc s Hr l st tr Hin.
-  pose proof (obs_checked _ _ _ _ Hc _ Hr _ Hin) as Hk. cbn [omap obs_check orb ref_ok] in Hk.
+  pose proof (obs_checked _ _ _ _ _ Hc _ Hr _ Hin) as Hk. cbn [omap obs_check orb ref_ok] in Hk.
   rewrite exits_map, map_map in Hk. cbn [fst] in Hk.
   rewrite filter_active_map, filter_exiting_map, map_map in Hk. cbn [tmap t_site] in Hk.
   apply andb_true_iff in Hk as [Hk H6]. apply andb_true_iff in Hk as [Hk H5].
@@ -106,7 +106,7 @@ Proof.
   rewrite forallb_map, forallb_forall in H5. cbn [tmap t_async t_site] in H5.
   (* instances: a site on the stack and in the truth carry the same manager *)
   destruct (obs_ids _ _ _ _ _ _ Hin) as [Hst Htr].
-  pose proof (inv_reach _ _ _ _ Hc _ Hr) as HI.
+  pose proof (inv_reach _ _ _ _ _ Hc _ Hr) as HI.
   assert (Hinst : forall x e, In x (exits_on_stack st) -> In e tr -> t_site e = fst x -> t_inst e = snd x).
   { intros [a i] e Hx He Hs. cbn in Hs |- *. eapply HI.
     - unfold ids. apply in_or_app. right. apply Htr.
@@ -142,7 +142,7 @@ Proof.
     - exact H4. }
   destruct Hcore as (C1 & C2 & C3 & C4).
   unfold ref_sound.
-  destruct (exiting c t l) as [|asy h|] eqn:Eex.
+  destruct (exiting v c t l) as [|asy h|] eqn:Eex.
   - (* no exit in progress *)
     destruct (filter is_exiting_ph tr) as [|e0 r0] eqn:Ef; [|discriminate].
     rewrite (HfN []) by (intros y []). rewrite app_nil_r.
@@ -174,22 +174,22 @@ Print Assumptions referents_sound.
 End RefSound.
 
 (* ---- failure of the trickery branch only warns ---- *)
-Lemma caf_never_raises {I} enabled c t running lasti (st : list (val I)) :
-  contexts_active true enabled c t running lasti st <> CafRaise.
+Lemma caf_never_raises {I} v enabled c t running lasti (st : list (val I)) :
+  contexts_active v true enabled c t running lasti st <> CafRaise.
 Proof.
   unfold contexts_active. destruct enabled; [|discriminate].
-  destruct (trickery c t running lasti st); try discriminate.
-  destruct (with_info c t); [|discriminate]. destruct (blocks t lasti); [|discriminate].
+  destruct (trickery v c t running lasti st); try discriminate.
+  destruct (with_info v c t); [|discriminate]. destruct (blocks t lasti); [|discriminate].
   destruct (objs_of _ _ _); discriminate.
 Qed.
 
-Lemma caf_failure_falls_back {I} c t running lasti (st : list (val I)) :
-  trickery c t running lasti st = TFail ->
-  contexts_active true true c t running lasti st = CafRef (referents c t lasti st) true.
+Lemma caf_failure_falls_back {I} v c t running lasti (st : list (val I)) :
+  trickery v c t running lasti st = TFail ->
+  contexts_active v true true c t running lasti st = CafRef (referents v c t lasti st) true.
 Proof. unfold contexts_active. intros ->. reflexivity. Qed.
 
-Lemma caf_disabled_is_referents {I} g c t running lasti (st : list (val I)) :
-  contexts_active g false c t running lasti st = CafRef (referents c t lasti st) false.
+Lemma caf_disabled_is_referents {I} v g c t running lasti (st : list (val I)) :
+  contexts_active v g false c t running lasti st = CafRef (referents v c t lasti st) false.
 Proof. reflexivity. Qed.
 
 (* ---- set_trickery_enabled: every later read sees the last value set; None re-detects ---- *)
